@@ -17,7 +17,7 @@
                                        prefix of its effects, reopened (non-volatile, load, default opts)
                                                                          -> <tag>=<recovered>;<tag>=<recovered>;…
   <state>     = ds=<DataSeq> vs=<VersionSequence> di=<DatfileIndex> ex=<Extra> nd=<Needed> pe=<#pending>
-                ns=<0|1> files=<name:size,…>   or   failed=<exit|panic>
+                ns=<0|1> nl=<#records whose data is not in memory> files=<name:size,…>   or   failed=<exit|panic>
   <recovered> = ok:<k=len.hash,…|->  or  fail:<exit|panic>
   hash = FNV-1a 64 of the value.
 -/
@@ -47,7 +47,7 @@ def stateStr (db : DB) : String :=
   match db.failed with
   | some w => s!"failed={w}"
   | none =>
-    s!"ds={db.dataSeq} vs={db.verSeq} di={db.datIdx} ex={db.extra} nd={db.need} pe={db.pending.length} ns={Proto.boolStr db.noSync} files={fileList db.fs}"
+    s!"ds={db.dataSeq} vs={db.verSeq} di={db.datIdx} ex={db.extra} nd={db.need} pe={db.pending.length} ns={Proto.boolStr db.noSync} nl={(db.index.filter (·.2.data.isNone)).length} files={fileList db.fs}"
 
 def insKV (kv : Key × Bytes) : List (Key × Bytes) → List (Key × Bytes)
   | [] => [kv]
